@@ -903,3 +903,95 @@ def rule_codec_framing(prog, rep):
             if not ok:
                 rep.violation('TB16', f, r.line, 'return:%s' % canon(e)[:30], '%s returns %s: a string function of the output stops at the '
                               'first decoded NUL byte, so binary payloads are reported shorter than they are' % (name, canon(e)[:40]))
+
+
+def rule_codec_purity(prog, rep, rid='TB17'):
+    """The codec functions keep no mutable static state: no variable with static storage (function-static or file-scope,
+    not const) is written by them.  A lazily built table guarded by an unsynchronised flag makes the first concurrent calls
+    decode with a half-built table."""
+    rep.rule(rid, 'the codecs keep no mutable static state (no write to a non-const static or file-scope variable): they are '
+                  'functions of their input only, also when first called from several threads at once')
+    unit = 'src/utilities/qencode.c'
+    u = prog.unit(unit)
+    for f in sorted(prog.funcs_in(unit), key=lambda x: x.line or 0):
+        if f.body is None:
+            continue
+        statics = {x.get('name') for x in walk(f.body) if x.get('kind') == 'VarDecl' and x.get('storageClass') == 'static'
+                   and 'const' not in (qtype(x) or '')}
+        globs = {nm for nm, g in u.globals.items() if 'const' not in (qtype(g) or '')}
+        bad = []
+        for x in walk(f.body):
+            tgt = None
+            if x.get('kind') in ('BinaryOperator', 'CompoundAssignOperator') and (x.get('opcode') or '').endswith('=') \
+                    and x.get('opcode') not in ('==', '!=', '<=', '>='):
+                tgt = children(x)[0]
+            elif x.get('kind') == 'UnaryOperator' and x.get('opcode') in ('++', '--'):
+                tgt = children(x)[0]
+            elif x.get('kind') == 'CallExpr' and prog.callee_name(x) in ('memset', 'memcpy', 'memmove', 'strcpy') and len(children(x)) > 1:
+                tgt = children(x)[1]
+            if tgt is None:
+                continue
+            for y in walk(tgt):
+                if y.get('kind') == 'DeclRefExpr' and (y.get('referencedDecl') or {}).get('name') in (statics | globs):
+                    bad.append((x.get('_line'), (y.get('referencedDecl') or {}).get('name')))
+        rep.instance(rid)
+        rep.oblige(rid, not bad, {'function': f.name})
+        for (line, nm) in sorted(set(bad))[:2]:
+            rep.violation(rid, f, line, 'static-write:%s' % nm, '%s writes the static variable %s: the codec has hidden state shared between '
+                          'calls (and between threads)' % (f.name, nm))
+
+
+def rule_query_pairs_stored(prog, rep, rid='TB18'):
+    """Every pair the query parser splits off is handed to the table: no path from the second split (the name) to the next
+    pair or to the return bypasses the put."""
+    rep.rule(rid, 'the query parser stores every pair it splits off: no path from the name/value split to the next pair bypasses the put')
+    f = prog.need_func('qparse_queries')
+    if not any(x.get('kind') == 'CallExpr' and prog.callee_name(x) == '_q_makeword' for x in walk(f.body)):
+        for x in walk(f.body):
+            if x.get('kind') == 'CallExpr':
+                for g in prog.callees(f.unit, x):
+                    if getattr(g, 'body', None) is not None and g.static and any(
+                            y.get('kind') == 'CallExpr' and prog.callee_name(y) == '_q_makeword' for y in walk(g.body)):
+                        f = g
+    cfg = f.cfg
+    splits = [n for n in cfg.nodes if isinstance(n.ast, dict) and n.kind != 'macro' and any(
+        x.get('kind') == 'CallExpr' and prog.callee_name(x) == '_q_makeword' for x in walk(n.ast))]
+    def is_put(n):
+        if not isinstance(n.ast, dict) or n.kind == 'macro':
+            return False
+        for x in walk(n.ast):
+            if x.get('kind') == 'CallExpr':
+                c = strip(children(x)[0])
+                if c.get('kind') == 'MemberExpr' and (c.get('name') or '').startswith('put'):
+                    return True
+                if (prog.callee_name(x) or '').startswith('qlisttbl_put'):
+                    return True
+        return False
+    if len(splits) < 2 or not any(is_put(n) for n in cfg.nodes):
+        return
+    last = max(splits, key=lambda n: (n.line or 0, n.id))
+    # loop heads of loops that contain the split, and the exit
+    stops = {cfg.exit.id}
+    for (head, loop) in cfg.loops:
+        if any(x is y for x in walk(loop) for y in [last.ast]) or any(id(x) == id(last.ast) for x in walk(loop)):
+            stops.add(head.id)
+    seen, work, bad = set(), [s_ for (s_, _l) in last.succs], None
+    if is_put(last):
+        work = []
+    while work:
+        n = work.pop()
+        if n.id in seen:
+            continue
+        seen.add(n.id)
+        if is_put(n):
+            continue
+        if n.id in stops:
+            bad = n
+            break
+        for (s_, _l) in n.succs:
+            work.append(s_)
+    rep.instance(rid)
+    rep.oblige(rid, bad is None, {'function': f.name, 'split_line': last.line})
+    if bad is not None:
+        rep.violation(rid, f, last.line, 'pair-dropped', '%s can go on to the next pair (or return) after splitting a pair off without '
+                      'handing it to the table: pairs are silently dropped, the count is short and later pairs shift up' % f.name)
